@@ -438,6 +438,34 @@ pub fn run(prop: &str, seed: u64, n: usize, outdir: &str, _corpus: Option<&str>)
             *dist.entry(format!("text_edit_outcome_{}", code)).or_default() += 1;
             sh.push_h(format!("seed:{}:text", sub), tterm, thuman);
         }
+        if prop == "C10" && gd.nright > 1 && gd.nleft > 1 {
+            // fourth stream: the same dictionary with a bigram connector (raw or dual) built from generated
+            // bigram.right / bigram.left / bigram.cost, half of the time with one random edit of one of them
+            let bg = crate::c07::gen_bigram_sized(&mut rng, false, false, gd.nright - 1, gd.nleft - 1);
+            let mut fs = [bg.right_file(), bg.left_file(), bg.cost_file()];
+            let which = rng.below(3) as usize;
+            let edit = rng.chance(1, 2);
+            if edit { fs[which] = corrupt_text(&mut rng, &fs[which]); }
+            let dual = rng.chance(1, 2);
+            let (c, u, l) = (gd.char_def(), GenDict::rows_csv(&gd.unk), GenDict::rows_csv(&gd.sys));
+            let (f0, f1, f2) = (fs[0].clone(), fs[1].clone(), fs[2].clone());
+            let built = guarded(move || vibrato::SystemDictionaryBuilder::from_readers_with_bigram_info(l.as_bytes(), f0.as_bytes(), f1.as_bytes(), f2.as_bytes(), c.as_bytes(), u.as_bytes(), dual));
+            let code = match &built { Outcome::Ok(_) => 0, Outcome::Err => 1, Outcome::Panic => 2 };
+            let mut souts: Vec<(u8, bool)> = vec![];
+            if let Outcome::Ok(d) = built {
+                let unk_cats: std::collections::BTreeSet<u32> = d.verif_unk_entries().iter().map(|e| e.0 as u32).collect();
+                let uncovered: Vec<bool> = sentences.iter().map(|s| s.chars().any(|ch| !unk_cats.contains(&d.verif_char_info(ch).1))).collect();
+                let t = vibrato::Tokenizer::new(d);
+                for (s, unc) in sentences.iter().zip(uncovered) {
+                    let r = std::panic::catch_unwind(std::panic::AssertUnwindSafe(|| { let mut w = t.new_worker(); w.reset_sentence(s); w.tokenize(); w.num_tokens() }));
+                    souts.push((if r.is_ok() { 0 } else { 2 }, unc));
+                }
+            }
+            let bterm = format!("(C10Bigram {} {} {} {} {})", sub, if edit { which + 1 } else { 0 }, cbool(dual), code, clist(&souts, |(o, u)| format!("({}, {})", o, cbool(*u))));
+            let bhuman = format!("bigram connector dual={} edited={} (0 none, 1 right, 2 left, 3 cost) right={} left={} cost={} ; other files: {} sentences={:?}", dual, if edit { which + 1 } else { 0 }, json_str(&fs[0]), json_str(&fs[1]), json_str(&fs[2]), out.human, sentences);
+            *dist.entry(format!("bigram_{}_outcome_{}", if edit { "edited" } else { "valid" }, code)).or_default() += 1;
+            sh.push_h(format!("seed:{}:bigram", sub), bterm, bhuman);
+        }
         if prop == "C10" && out.built == 0 {
             // third stream: arbitrary mapping sequences (not only permutations) on the accepted dictionary
             let seqv = |rng: &mut Rng, n: usize| -> Vec<u16> {
